@@ -21,6 +21,7 @@ struct mock_script
     int just_opened[MOCK_NDEV];
     int open_fails[MOCK_NDEV];       // number of upcoming opens of this device that fail (busy / unplugged)
     int sto_set_fails[MOCK_NDEV];    // number of upcoming set() calls of this storage that reject the settings (AwaitingConfiguration)
+    int sto_incomplete[MOCK_NDEV];   // the storage device leaves an entry of its interface NULL (built against an older device kit)
     int sto_reports_consumed;        // a failing append reports how many bytes it had consumed before it failed (kit/storage.h), the fault is transient
     unsigned long log_len;           // number of DRV lines so far (for state digests)
 };
